@@ -8,4 +8,4 @@ def add_to(run, prop):
         cfgs = cfgs[:8]
     run.require(*(csrtarget.READ_CLAUSES + csrtarget.WRITE_CLAUSES + ["map_agreement"]))
     run.functions["decoder trees over csr.Bridge / EventMonitor / GPIO (flattened)"] = "per generated tree (bounded), generic CSR-target contract at the root with all_resources() addresses"
-    run_configs(run, "vf.props.C06tree", cfgs, cosim_cycles=8)
+    run_configs(run, "vf.props.C06tree", cfgs, cosim_cycles=8, must_accept=lambda cfg: bool(cfg.get("directed")))
